@@ -111,11 +111,10 @@ def _ref_changed(var_name, new, old, ident):
     return False
 
 
-def run(ctx):
-    program = ctx.program
+def change_predicate_table(ctx, program, rid):
+    """ident_any_values_changed / ident_values_changed interpreted on old/new value pairs x name sets against the reference definition."""
     ANY = "trigger.py::ident_any_values_changed"
     CHG = "trigger.py::ident_values_changed"
-    ctx.rule("R04.3a", "the change predicates equal the reference definition (value changed / named attribute changed / any attribute changed, incl. attributes that appear or disappear)", floor=150)
     vals = [None, ("on", {}), ("on", {"x": 1, "z": 3}), ("off", {"x": 1, "z": 3}), ("on", {"x": 1, "y": 2, "z": 3}), ("on", {"x": 2, "z": 3})]
     idents_any = [["d.e"], ["d.e.x"], ["d.e.y"], ["d.e.*"], ["d.other", "d.e.*"], ["d.other"], ["d.e.x", "d.e"], ["d.e", "d.e.x"], ["d.e.y", "d.e.x"]]
     idents_chg = [["d.e"], ["d.e.old"], ["d.e.x"], ["d.e.y"], ["d.other", "d.e.y"], ["d.other"], ["d.e.old.x"], ["x"],
@@ -127,16 +126,22 @@ def run(ctx):
         for ident in idents_any:
             got = _pred(program, ANY, "d.e", new, old, ident)
             exp = [repr(Const(_ref_any("d.e", new, old, ident)))]
-            ctx.check(got == exp, "R04.3a", ANY, f"any-change {ident}: {old} -> {new}",
+            ctx.check(got == exp, rid, ANY, f"any-change {ident}: {old} -> {new}",
                       msg=f"ident_any_values_changed for any-change names {ident} and the change {old} -> {new} returns {got}, reference {exp}: "
                       f"{'the change is not noticed (a run is lost)' if exp == ['True'] else 'a run is started for a non-qualifying change'}",
                       key=f"any {ident} {old}->{new}", node=program.func(ANY), rel="trigger.py")
         for ident in idents_chg:
             got = _pred(program, CHG, "d.e", new, old, ident)
             exp = [repr(Const(_ref_changed("d.e", new, old, ident)))]
-            ctx.check(got == exp, "R04.3a", CHG, f"watched {ident}: {old} -> {new}",
+            ctx.check(got == exp, rid, CHG, f"watched {ident}: {old} -> {new}",
                       msg=f"ident_values_changed for watched names {ident} and the change {old} -> {new} returns {got}, reference {exp}", key=f"chg {ident} {old}->{new}",
                       node=program.func(CHG), rel="trigger.py")
+
+
+def run(ctx):
+    program = ctx.program
+    ctx.rule("R04.3a", "the change predicates equal the reference definition (value changed / named attribute changed / any attribute changed, incl. attributes that appear or disappear)", floor=150)
+    change_predicate_table(ctx, program, "R04.3a")
 
     ctx.rule("R04.3b", "a run is dispatched for a notification only if an any-change form matched, or a watched name changed and the expression is truthy (both subsystems)", floor=2)
     _gating_new(ctx, program)
